@@ -8,10 +8,9 @@ round trip). Recursion between `readEq` and `readExpr` is by an explicit paramet
 parser of the next lower fuel), loops have their own fuel; fuel never runs out when it is at least
 the length of the input (+1), which is how the entry points at the end call them.
 
-Deviations of the pinned tree carried here (marked `DEVIATION (C14-…)`): `!` takes the whole rest of
-the equation (not-scope), `precedentCorrect` rotates the second argument of a function call (func-arg),
-`readEqList` has no empty list (empty-list), Root/At after the first position are swallowed
-(no-text-form).
+Deviation carried here (marked `DEVIATION (C14-…)`): Root/At after the first position are swallowed
+(no-text-form). Repaired in /repo and followed here: `!` takes ONE operand (9a26786), `precedentCorrect`
+leaves the second argument of a function call in place (cd355fe), `readEqList` reads `[]` (32b7b46).
 
 Not modelled: `regexp.Compile` (every regex source is taken to compile), `[(…)]` procedures
 (`jp.CompileScript` is nil, `MustNewProc` panics).
@@ -238,6 +237,10 @@ def afterBracket (pf : P (List Item)) (bs : Bytes) : Option (Frag × Bytes) :=
         if (skipSpace r2).1 = 93 then some (.child s, (skipSpace r2).2)
         else if (skipSpace r2).1 = 44 then readUnion (.key s) (skipSpace r2).2
         else none
+    else if (skipSpace bs).1 = 46 then                       -- `[..]` (since bc70af1)
+      match (skipSpace bs).2 with
+      | a :: b :: r => if a = 46 && b = 93 then some (.descent, r) else none
+      | _ => none
     else if (skipSpace bs).1 = 58 then readSlice 0 (skipSpace bs).2
     else if (skipSpace bs).1 = 63 then
       match pf (skipSpace bs).2 with
@@ -288,9 +291,12 @@ def eqnSize : Eqn → Nat
   | .un _ l => 1 + eqnSize l
   | .bin _ l r => 1 + eqnSize l + eqnSize r
 
-/-- `precedentCorrect`. DEVIATION (C14-func-arg): a node with a right operand is taken for an infix
-operator whatever it is; `match`/`search` (precedence number 0) lose any operator at the top of their
-second argument to the rotation. -/
+/-- the call syntax `name(a, b)`: `match`, `search`, user functions (since cd355fe their second argument is
+corrected in place, not rotated) -/
+def isCall (o : Op) : Bool :=
+  isCode o Gen.JpOps.op_match || isCode o Gen.JpOps.op_search || o.code == Gen.Jp.userOpCode
+
+/-- `precedentCorrect` -/
 def precCorrect : Nat → Eqn → Option Eqn
   | 0, _ => none
   | _+1, .val v => some (.val v)
@@ -305,7 +311,11 @@ def precCorrect : Nat → Eqn → Option Eqn
       match r with
       | .val _ => some (.bin o l' r)
       | .un ro rl =>
-        if o.prec ≤ ro.prec then precCorrect f (.un ro (.bin o l' rl))
+        if isCall o then
+          match precCorrect f r with
+          | none => none
+          | some r' => some (.bin o l' r')
+        else if o.prec ≤ ro.prec then precCorrect f (.un ro (.bin o l' rl))
         else
           match precCorrect f r with
           | none => none
@@ -314,7 +324,11 @@ def precCorrect : Nat → Eqn → Option Eqn
             | none => some (.bin o l' r')
             | some ro2 => if o.prec ≤ ro2.prec then precCorrect f (.bin o l' r') else some (.bin o l' r')
       | .bin ro rl rr =>
-        if o.prec ≤ ro.prec then precCorrect f (.bin ro (.bin o l' rl) rr)
+        if isCall o then
+          match precCorrect f r with
+          | none => none
+          | some r' => some (.bin o l' r')
+        else if o.prec ≤ ro.prec then precCorrect f (.bin ro (.bin o l' rl) rr)
         else
           match precCorrect f r with
           | none => none
@@ -447,8 +461,7 @@ def matchPrefix : Bytes → Bytes → Option Bytes
   | _ :: _, [] => none
   | t :: ts, b :: r => if b = t then matchPrefix ts r else none
 
-/-- `p.readEqList()`'s loop; `rec` reads one equation. DEVIATION (C14-empty-list): it starts with
-`readEq`, which fails on `]` -/
+/-- `p.readEqList()`'s loop; `rec` reads one equation -/
 def readListLoop (rec : P Eqn) : Nat → Bytes → Option (List Val × Bytes)
   | 0, _ => none
   | _, [] => some ([], [])
@@ -498,14 +511,16 @@ def bFalseTok : Bytes := [102, 97, 108, 115, 101]
 def bNullTok : Bytes := [110, 117, 108, 108]
 def bNothingTok : Bytes := [78, 111, 116, 104, 105, 110, 103]
 
-/-- the value switch at the head of `p.readEq()`; `bs` has no leading space -/
-def readEqValue (rec : P Eqn) (bs : Bytes) : Option (Eqn × Bytes) :=
-  match bs with
+/-- `p.readEqValue()`: one operand; `rec` reads a nested equation. The fuel counts the `!` in front. -/
+def readEqValue (rec : P Eqn) : Nat → Bytes → Option (Eqn × Bytes)
+  | 0, _ => none
+  | f+1, bs0 =>
+  match dropSpaces bs0 with
   | [] => none                                -- b = 0: `''` is not a value or function
   | b :: r =>
     if b = 33 then
-      -- DEVIATION (C14-not-scope): the operand is a whole equation (`readEq`), not one value
-      match rec r with
+      -- one operand (since 9a26786), not the rest of the equation
+      match readEqValue rec f r with
       | none => none
       | some (e, r2) => some (.un Gen.JpOps.op_not e, r2)
     else if b = 45 || isDigit b then
@@ -517,7 +532,7 @@ def readEqValue (rec : P Eqn) (bs : Bytes) : Option (Eqn × Bytes) :=
       | none => none
       | some (s, r2) => some (.val (.str s), r2)
     else if b = 64 || b = 36 then
-      match readExpr (readFilter rec) bs with
+      match readExpr (readFilter rec) (b :: r) with
       | none => none
       | some (x, r2) => some (.val (.expr x), r2)
     else if b = 40 then
@@ -526,25 +541,27 @@ def readEqValue (rec : P Eqn) (bs : Bytes) : Option (Eqn × Bytes) :=
       | some (e, r2) =>
         if peek (dropSpaces r2) = 41 then some (.un Gen.JpOps.op_group e, (dropSpaces r2).drop 1) else none
     else if b = 91 then
-      match readListLoop rec (r.length + 1) r with
-      | none => none
-      | some (vs, r2) => some (.val (.list vs), r2)
+      if peek (dropSpaces r) = 93 then some (.val (.list []), (dropSpaces r).drop 1)   -- `[]` (since 32b7b46)
+      else
+        match readListLoop rec ((dropSpaces r).length + 1) (dropSpaces r) with
+        | none => none
+        | some (vs, r2) => some (.val (.list vs), r2)
     else if b = 47 then
       match readRegex (r.length + 1) r with
       | none => none
       | some (src, r2) => some (.val (.regex src), r2)
     else if b = 78 then
-      match matchPrefix bNothingTok bs with
+      match matchPrefix bNothingTok (b :: r) with
       | none => none
       | some r2 => some (.val .nothing, r2)
     else
-      if (takeLower bs).1 = bTrueTok then some (.val (.bool true), (takeLower bs).2)
-      else if (takeLower bs).1 = bFalseTok then some (.val (.bool false), (takeLower bs).2)
-      else if (takeLower bs).1 = bNullTok then some (.val .null, (takeLower bs).2)
+      if (takeLower (b :: r)).1 = bTrueTok then some (.val (.bool true), (takeLower (b :: r)).2)
+      else if (takeLower (b :: r)).1 = bFalseTok then some (.val (.bool false), (takeLower (b :: r)).2)
+      else if (takeLower (b :: r)).1 = bNullTok then some (.val .null, (takeLower (b :: r)).2)
       else
-        match lookupOp (takeLower bs).1 with
+        match lookupOp (takeLower (b :: r)).1 with
         | none => none
-        | some o => readOpArgs rec o (takeLower bs).2
+        | some o => readOpArgs rec o (takeLower (b :: r)).2
 
 /-- the operator loop at the end of `p.readEq()` -/
 def readEqLoop (rec : P Eqn) : Nat → Eqn → Bytes → Option (Eqn × Bytes)
@@ -563,7 +580,7 @@ def readEqLoop (rec : P Eqn) : Nat → Eqn → Bytes → Option (Eqn × Bytes)
 
 /-- `p.readEq()` with the given parser for the nested equations -/
 def readEqBody (rec : P Eqn) (bs : Bytes) : Option (Eqn × Bytes) :=
-  match readEqValue rec (dropSpaces bs) with
+  match readEqValue rec (bs.length + 1) bs with
   | none => none
   | some (e, r) => readEqLoop rec (r.length + 1) e r
 
